@@ -10,7 +10,8 @@ import BigtreeModel.Store
 * Tree- and forest-level *edit functions* stating the documented effect of the structural operations on
   rose trees, without any reference to pointers: `Tree.subtree`, `Tree.detach`, `Tree.appendChild`,
   `Tree.clearChildren`, `Tree.sortChildren`, and `Forest.move`, `Forest.toRoot`,
-  `Forest.delChildren`, `Forest.setChildren`, `Forest.sortChildren`.
+  `Forest.delChildren`, `Forest.setChildren`, `Forest.sortChildren`, `Forest.delItem`; `Forest.apply op`
+  collects them: the documented effect of an accepted call `op`.
 
 The refinement theorems (`BigtreeProofs/Properties/Bridge.lean`) say that `forest` maps every
 accepted store operation to the corresponding forest edit.
@@ -125,4 +126,43 @@ def setChildren (F : Forest) (v : Nat) (cs : List Nat) : Forest :=
 def sortChildren (F : Forest) (v : Nat) (ranks : List Nat) (rev : Bool) : Forest :=
   Tree.sortChildrenL v (fun i => ranks.getD i 0) rev F
 
+/-- `del p[name]` on forests: the unique child of `p` with that name (if any) becomes a tree of its own -/
+def delItem (F : Forest) (p : Nat) (nm : Str) : Forest :=
+  match Tree.subtreeL p F with
+  | none => F
+  | some t =>
+    match t.children.filter fun c => c.name == nm with
+    | [ch] => toRoot F ch.id
+    | _ => F
+
+/-- the documented effect of one ACCEPTED call of the structural API, on forests (hook faults play no
+role: a call with a raising hook is not accepted) -/
+def apply (F : Forest) : Store.Op → Forest
+  | .setParent v (some p) _ => move F v p
+  | .setParent v none _ => toRoot F v
+  | .setChildren v cs _ => setChildren F v cs
+  | .setChildrenNonList _ _ => F
+  | .delChildren v => delChildren F v
+  | .append p c _ => move F c p
+  | .extend p cs _ _ => cs.foldl (fun G c => move G c p) F
+  | .rshift p c _ => move F c p
+  | .lshift c (some p) _ => move F c p
+  | .lshift c none _ => toRoot F c
+  | .delItem p nm _ => delItem F p nm
+  | .sort v ranks rev => sortChildren F v ranks rev
+  | .setSep _ _ => F
+
+/-- a whole history on forests: accepted calls have their documented effect, rejected calls none -/
+def replay (F : Forest) : List (Store.Op × Outcome) → Forest
+  | [] => F
+  | (op, .ok) :: rest => replay (apply F op) rest
+  | (_, .rej) :: rest => replay F rest
+
 end Forest
+
+namespace Store
+
+/-- the outcomes (accepted / rejected) of the calls of a history -/
+def outcomes (c : Cfg) (s : Store) (ops : List Op) : List Outcome := (trace c s ops).map (·.1)
+
+end Store
